@@ -543,6 +543,7 @@ public:
           // Read the pointee through the tainted_volatile so that it is
           // decoded with the sandbox's ABI, not the application's
           auto val_copy = std::make_unique<T_Deref>();
+          RLBOX_VERIF_POINT("copy_and_verify(pointer)", val, sizeof(T_Deref));
           *val_copy = (*impl()).get_raw_value();
           return verifier(std::move(val_copy));
         }
@@ -621,6 +622,7 @@ private:
     for (size_t i = 0; i < count; i++) {
       // impl()[i] is a tainted_volatile: reading it converts from the
       // sandbox's ABI
+      RLBOX_VERIF_POINT("copy_and_verify_range element", start, i);
       target[i] = impl()[i].get_raw_value();
     }
 
@@ -688,9 +690,13 @@ public:
       // sandbox however, copy_and_verify_range ensures that we never copy
       // memory outsider the range
       auto str_len = std::strlen(start) + 1;
+      RLBOX_VERIF_POINT("copy_and_verify_string after strlen", start, str_len);
       std::unique_ptr<T_CopyAndVerifyRangeEl[]> target =
         copy_and_verify_range_helper(str_len);
 
+      RLBOX_VERIF_POINT("copy_and_verify_string before terminator",
+                        start,
+                        str_len);
       // ensure the string has a trailing null
       target[str_len - 1] = '\0';
 
@@ -708,6 +714,7 @@ public:
       // sandbox however, copy_and_verify_range ensures that we never copy
       // memory outsider the range
       auto str_len = std::strlen(start) + 1;
+      RLBOX_VERIF_POINT("copy_and_verify_string after strlen", start, str_len);
 
       const char* checked_start = (const char*)verify_range_helper(str_len);
       if (checked_start == nullptr) {
@@ -715,6 +722,9 @@ public:
         return verifier(param);
       }
 
+      RLBOX_VERIF_POINT("copy_and_verify_string before std::string",
+                        checked_start,
+                        str_len);
       std::string copy(checked_start, str_len - 1);
       return verifier(std::move(copy));
     }
@@ -983,6 +993,7 @@ public:
     // can thus be the example_unsandboxed_ptr
     const volatile void* p_data_ref = &p.get_sandbox_value_ref();
     const void* example_unsandboxed_ptr = const_cast<const void*>(p_data_ref);
+    RLBOX_VERIF_POINT("tainted(tainted_volatile)", p_data_ref, sizeof(p));
     using namespace detail;
     convert_type_non_class<T_Sbx,
                            adjust_type_direction::TO_APPLICATION,
@@ -1166,6 +1177,7 @@ private:
     // can thus be the example_unsandboxed_ptr
     const volatile void* data_ref = &data;
     const void* example_unsandboxed_ptr = const_cast<const void*>(data_ref);
+    RLBOX_VERIF_POINT("tainted_volatile::get_raw_value", data_ref, sizeof(data));
     using namespace detail;
     convert_type_non_class<T_Sbx,
                            adjust_type_direction::TO_APPLICATION,
